@@ -8,6 +8,7 @@ import J1939.Model.Dll21
 import J1939.Lemmas.PyDict
 import J1939.Lemmas.Tactics
 import J1939.Lemmas.Const21
+import J1939.Model.Dll22
 namespace J1939.Props.C10
 open J1939 J1939.Gen J1939.Dll21
 
@@ -91,5 +92,52 @@ theorem c10_abort_releases (cfg : Cfg) (s : St) (now : Nat) (mid : MessageId) (d
     have : ¬ now > now' := by omega
     have h0' : now ≠ 0 := by omega
     simp [this, h0', S_FINISHED, S_WAITING_CTS, S_SENDING_IN_CTS, S_SENDING_BM]
+
+end J1939.Props.C10
+
+/-! ## J1939-22 (FD) -/
+namespace J1939.Props.C10
+open J1939 J1939.Gen J1939.Dll22
+
+/-- J1939-22, EVERY EXIT OF AN ORIGINATOR SESSION RETURNS ITS NUMBER: whenever the background pass deletes a send
+    record — timeout while waiting for CTS, timeout or arrival of the end-of-message acknowledgement, peer abort
+    (FINISHED, repair of D22), end of a broadcast — it returns exactly that record's session number to the pool of its
+    kind; a record that stays returns nothing.  With `c02_accept_takes_one` (an accepted message takes one number) and
+    `c02_notify_keeps_pools` (no received frame touches a pool) this is the conservation of the 8 + 4 capacity -/
+theorem c10_22_deleted_returns_number (cfg : Cfg) (now : Nat) (b : Snd) (hd0 : b.deadline ≠ 0) (hdue : b.deadline ≤ now) :
+    (b.state = S_WAITING_CTS → (tickSndOne cfg now b).1 = none ∧ (tickSndOne cfg now b).2.2.2.2 = .rts b.session) ∧
+    (b.state = S_WAITING_EOM_ACK → (tickSndOne cfg now b).1 = none ∧ (tickSndOne cfg now b).2.2.2.2 = .rts b.session) ∧
+    (b.state = S_EOM_ACK_RECEIVED → (tickSndOne cfg now b).1 = none ∧ (tickSndOne cfg now b).2.2.2.2 = .rts b.session) ∧
+    (b.state = S_FINISHED → (tickSndOne cfg now b).1 = none ∧ (tickSndOne cfg now b).2.2.2.2 = .rts b.session) ∧
+    (b.state = S_SENDING_EOM_STATUS → (tickSndOne cfg now b).1 = none ∧ (tickSndOne cfg now b).2.2.2.2 = .bam b.session) := by
+  have h0 : (b.deadline != 0) = true := by simpa using hd0
+  have hf : ¬ b.deadline > now := by omega
+  refine ⟨?_, ?_, ?_, ?_, ?_⟩ <;> intro h <;> unfold tickSndOne <;> simp only [h0, hf, if_true, if_false, h]
+  · simp only [beq_self_eq_true, if_true]
+    exact ⟨trivial, trivial⟩
+  · have e1 : (S_WAITING_EOM_ACK == S_WAITING_CTS) = false := by decide
+    have e2 : (S_WAITING_EOM_ACK == S_SENDING_RTS_CTS) = false := by decide
+    simp only [e1, e2, Bool.false_eq_true, if_false, beq_self_eq_true, if_true]
+    exact ⟨trivial, trivial⟩
+  · have e1 : (S_EOM_ACK_RECEIVED == S_WAITING_CTS) = false := by decide
+    have e2 : (S_EOM_ACK_RECEIVED == S_SENDING_RTS_CTS) = false := by decide
+    have e3 : (S_EOM_ACK_RECEIVED == S_WAITING_EOM_ACK) = false := by decide
+    simp only [e1, e2, e3, Bool.false_eq_true, if_false, beq_self_eq_true, if_true]
+    exact ⟨trivial, trivial⟩
+  · have e1 : (S_FINISHED == S_WAITING_CTS) = false := by decide
+    have e2 : (S_FINISHED == S_SENDING_RTS_CTS) = false := by decide
+    have e3 : (S_FINISHED == S_WAITING_EOM_ACK) = false := by decide
+    have e4 : (S_FINISHED == S_EOM_ACK_RECEIVED) = false := by decide
+    have e5 : (S_FINISHED == S_SENDING_BAM) = false := by decide
+    have e6 : (S_FINISHED == S_SENDING_EOM_STATUS) = false := by decide
+    simp only [e1, e2, e3, e4, e5, e6, Bool.false_eq_true, if_false, beq_self_eq_true, if_true]
+    exact ⟨trivial, trivial⟩
+  · have e1 : (S_SENDING_EOM_STATUS == S_WAITING_CTS) = false := by decide
+    have e2 : (S_SENDING_EOM_STATUS == S_SENDING_RTS_CTS) = false := by decide
+    have e3 : (S_SENDING_EOM_STATUS == S_WAITING_EOM_ACK) = false := by decide
+    have e4 : (S_SENDING_EOM_STATUS == S_EOM_ACK_RECEIVED) = false := by decide
+    have e5 : (S_SENDING_EOM_STATUS == S_SENDING_BAM) = false := by decide
+    simp only [e1, e2, e3, e4, e5, Bool.false_eq_true, if_false, beq_self_eq_true, if_true]
+    exact ⟨trivial, trivial⟩
 
 end J1939.Props.C10
